@@ -443,6 +443,7 @@ pub fn abi_record(args: &Args) -> i32 {
             }
         }
         if let Some(frame) = best {
+            let best_frame = frame.clone();
             let need2 = f.len();
             let mut caps: Vec<usize> = vec![0, 1, need2.saturating_sub(1), need2, need2 + 1, need2 + 10000];
             caps.sort();
@@ -469,9 +470,129 @@ pub fn abi_record(args: &Args) -> i32 {
                 writeln!(out, "{}", event("Decompress", json!({"cap":cap,"need":need2,"status":st,"unwound":unwound,"rs_set": rs != 0xDEAD_BEEF_DEAD_BEEF,
                     "rs": if rs == 0xDEAD_BEEF_DEAD_BEEF { 0 } else { rs.min(1 << 30) },"guards":g.guards_intact(),"valid":false,"frame":name}))).unwrap();
             }
+            // histories: inside one child process, a frame around a damaged container (which may well
+            // make the library panic behind the wrapper's catch_unwind), then the good calls again -
+            // what is demanded of a call does not depend on what was called before it
+            let expanded = guarded(|| expand_zlib_chunks(f, 0)).ok().and_then(|r| r.ok()).unwrap_or_default();
+            if expanded.len() > 40 {
+                out.flush().unwrap();
+                let mut damaged: Vec<Vec<u8>> = Vec::new();
+                for k in 0..3 {
+                    let mut d = expanded.clone();
+                    let from = d.len() / 2;
+                    for _ in 0..(1 + k * 3) {
+                        let i = from + rng.below((d.len() - from) as u64) as usize;
+                        d[i] ^= 1 << rng.below(8);
+                    }
+                    if k == 2 { let n = d.len(); d.truncate(n - 3); }
+                    damaged.push(zstd::bulk::compress(&d, 3).unwrap());
+                }
+                // a stream chunk whose corrections are noise (the parameter header is then nonsense)
+                for _ in 0..5 {
+                    let plain = crate::gen::junk(&mut rng, 1500);
+                    let corr = crate::gen::junk(&mut rng, 40);
+                    let mut d = vec![1u8, 1];
+                    d.extend_from_slice(&[(plain.len() & 0x7f) as u8 | 0x80, (plain.len() >> 7) as u8]);
+                    d.extend_from_slice(&plain);
+                    d.push(corr.len() as u8);
+                    d.extend_from_slice(&corr);
+                    damaged.push(zstd::bulk::compress(&d, 3).unwrap());
+                }
+                let good = best_frame.clone();
+                let iso = isolated(2 << 30, 30, || {
+                    let mut rep: Vec<Value> = Vec::new();
+                    let cap = need2 + 100;
+                    for d in damaged.iter().chain(std::iter::once(&good)) {
+                        let mut g = Guarded::new(cap);
+                        let mut rs: u64 = 0xDEAD_BEEF_DEAD_BEEF;
+                        let p = g.ptr();
+                        let status = guarded(|| unsafe { WrapperDecompressZip(d.as_ptr(), d.len() as u64, p, cap as u64, &mut rs as *mut u64) });
+                        let (st, unwound) = match status { Ok(s) => (s, false), Err(_) => (-99, true) };
+                        let is_good = std::ptr::eq(d, &good);
+                        let valid = st == 0 && (rs as usize) <= cap && g.data(rs as usize) == &f[..];
+                        rep.push(json!({"call":"Decompress","cap":cap,"need":need2,"status":st,"unwound":unwound,"rs_set": rs != 0xDEAD_BEEF_DEAD_BEEF,
+                            "rs": if rs == 0xDEAD_BEEF_DEAD_BEEF { 0 } else { rs.min(1 << 30) },"guards":g.guards_intact(),"valid":valid,
+                            "frame": if is_good { "valid" } else { "damaged" }, "after": if is_good { "damaged" } else { "" }}));
+                    }
+                    // and the compressing wrapper after all that
+                    let cap = bound + 100;
+                    let mut g = Guarded::new(cap);
+                    let mut rs: u64 = 0xDEAD_BEEF_DEAD_BEEF;
+                    let p = g.ptr();
+                    let status = guarded(|| unsafe { WrapperCompressZip(f.as_ptr(), f.len() as u64, p, cap as u64, &mut rs as *mut u64) });
+                    let (st, unwound) = match status { Ok(s) => (s, false), Err(_) => (-99, true) };
+                    let valid = st == 0 && (rs as usize) <= cap && matches!(guarded(|| decompress_zstd(g.data(rs as usize), 1 << 27)), Ok(Ok(ref x)) if x == f);
+                    rep.push(json!({"call":"Compress","cap":cap,"status":st,"unwound":unwound,"rs_set": rs != 0xDEAD_BEEF_DEAD_BEEF,
+                        "rs": if rs == 0xDEAD_BEEF_DEAD_BEEF { 0 } else { rs.min(1 << 30) },"guards":g.guards_intact(),"valid":valid,"after":"damaged"}));
+                    serde_json::to_vec(&rep).unwrap()
+                });
+                match iso {
+                    Ok(b) => {
+                        for mut e in serde_json::from_slice::<Vec<Value>>(&b).unwrap_or_default() {
+                            let call = e["call"].as_str().unwrap_or("").to_string();
+                            e.as_object_mut().unwrap().remove("call");
+                            writeln!(out, "{}", event(&call, e)).unwrap();
+                        }
+                    }
+                    Err(how) => {
+                        // (a decoder fed nonsense may run away until the child's limits end it: nothing
+                        // is demanded of damaged containers beyond what a surviving call shows)
+                        writeln!(out, "{}", event("SequenceDied", json!({"how":how}))).unwrap();
+                    }
+                }
+            }
         }
         writeln!(out, "{}", event("Done", json!({}))).unwrap();
         run += 1;
+    }
+    // the limit the property names: a file whose expanded form is exactly 128 MiB goes through
+    if args.get("limit").is_some() {
+        out.flush().unwrap();
+        let iso = isolated(8 << 30, 300, || {
+            let target: usize = 128 << 20;
+            let mut f = vec![0u8; target - 6];
+            let e = expand_zlib_chunks(&f, 0).map(|x| x.len()).unwrap_or(0);
+            if e != target && e > 0 { let n = (f.len() as i64 + target as i64 - e as i64) as usize; f.resize(n, 0); }
+            let e = expand_zlib_chunks(&f, 0).map(|x| x.len()).unwrap_or(0);
+            let cap = zstd::zstd_safe::compress_bound(e) + 100;
+            let mut zbuf = vec![0u8; cap];
+            let mut rs: u64 = 0xDEAD_BEEF_DEAD_BEEF;
+            let st = guarded(|| unsafe { WrapperCompressZip(f.as_ptr(), f.len() as u64, zbuf.as_mut_ptr(), cap as u64, &mut rs as *mut u64) });
+            let (st1, unw1) = match st { Ok(s) => (s, false), Err(_) => (-99, true) };
+            let mut rep = vec![json!({"expanded": e, "flen": f.len()}),
+                json!({"call":"Compress","cap":cap,"status":st1,"unwound":unw1,"rs_set": rs != 0xDEAD_BEEF_DEAD_BEEF,"rs": rs.min(1 << 30),"guards":true,"valid": st1 == 0 && (rs as usize) <= cap})];
+            if st1 == 0 && (rs as usize) <= cap {
+                let cap2 = f.len() + 100;
+                let mut g = Guarded::new(cap2);
+                let mut rs2: u64 = 0xDEAD_BEEF_DEAD_BEEF;
+                let p = g.ptr();
+                let st = guarded(|| unsafe { WrapperDecompressZip(zbuf.as_ptr(), rs, p, cap2 as u64, &mut rs2 as *mut u64) });
+                let (st2, unw2) = match st { Ok(s) => (s, false), Err(_) => (-99, true) };
+                let valid = st2 == 0 && (rs2 as usize) <= cap2 && g.data(rs2 as usize) == &f[..];
+                rep.push(json!({"call":"Decompress","cap":cap2,"need":f.len(),"status":st2,"unwound":unw2,"rs_set": rs2 != 0xDEAD_BEEF_DEAD_BEEF,
+                    "rs": if rs2 == 0xDEAD_BEEF_DEAD_BEEF { 0 } else { rs2.min(1 << 30) },"guards":g.guards_intact(),"valid":valid,"frame":"valid"}));
+            }
+            serde_json::to_vec(&rep).unwrap()
+        });
+        match iso {
+            Ok(b) => {
+                let rep = serde_json::from_slice::<Vec<Value>>(&b).unwrap_or_default();
+                if let Some(h) = rep.first() {
+                    writeln!(out, "{}", event("Reset", json!({"run":run,"flen":h["flen"],"needed":0,"bound":0,"segs":"zeros: expanded form exactly 128 MiB","expanded":h["expanded"],"hex":""}))).unwrap();
+                    for e in rep.iter().skip(1) {
+                        let mut e = e.clone();
+                        let call = e["call"].as_str().unwrap_or("").to_string();
+                        e.as_object_mut().unwrap().remove("call");
+                        writeln!(out, "{}", event(&call, e)).unwrap();
+                    }
+                    writeln!(out, "{}", event("Done", json!({}))).unwrap();
+                }
+            }
+            Err(how) => {
+                writeln!(out, "{}", event("Reset", json!({"run":run,"flen":0,"needed":0,"bound":0,"segs":"zeros: expanded form exactly 128 MiB","hex":""}))).unwrap();
+                writeln!(out, "{}", event("Crashed", json!({"call":"round trip at the 128 MiB limit","cap":0,"how":how}))).unwrap();
+            }
+        }
     }
     0
 }
